@@ -69,7 +69,7 @@ the shards that were already there (nothing is listed twice by the merge, nothin
 theorem C04_written_listed (H : SList → Nat) (B fuel : Nat) (hfuel : B < fuel + 1) (hB : 1 ≤ B) (ds : DS)
     (d : Dir) (new : List Shard) (hd : d ≠ [] ∧ d.length ≤ B) (hg : Good H B ds) :
     filesAt (session H fuel ds [(d, new)]).fs d = filesAt ds.fs d ++ new := by
-  have h := (session_good H B fuel hfuel hB ds [(d, new)] (by simpa using hd) hg).2.2.2 d
+  have h := (session_good H B fuel hfuel hB ds [(d, new)] (by simpa using hd) hg).2.2.2.1 d
   rw [h]
   simp only [applyWrites, List.foldl_cons, List.foldl_nil]
   exact appendShards_files _ _ _
